@@ -118,3 +118,266 @@ Fixpoint slot_del (s : nat) (l : list (nat * nat)) : list (nat * nat) :=
 
 Definition zn (n : nat) : Z := Z.of_nat n.
 Definition vsize g : Z := zn (length (vec g)).
+
+(* ---------- the body of destroyObjects() between try_lock_for and unlock ---------- *)
+(* for (auto& element : v) if (element.use_count() == 1) { ecall.push_back(element); ... } *)
+Fixpoint scan (v : list nat) (r : nat -> nat) : list nat * (nat -> nat) :=
+  match v with
+  | [] => ([], r)
+  | o :: v' => if Nat.eqb (r o) 1 then let (ec, r') := scan v' (fupd r o (S (r o))) in (o :: ec, r')
+               else scan v' r
+  end.
+Definition memn (o : nat) (l : list nat) : bool := existsb (Nat.eqb o) l.
+(* remove_if(use_count()==2 && pointer in epointers) + erase: the removed entries release their reference *)
+Fixpoint sweep (v ep : list nat) (r : nat -> nat) : list nat * (nat -> nat) :=
+  match v with
+  | [] => ([], r)
+  | o :: v' => if Nat.eqb (r o) 2 && memn o ep then sweep v' ep (fupd r o (pred (r o)))
+               else let (k, r') := sweep v' ep r in (o :: k, r')
+  end.
+
+(* ---------- mutex primitives (invisible and always successful in the single-thread class) ---------- *)
+Definition try_acq (t c : nat) (g : glob) : option (bool * glob * list ev) :=
+  if locked (cf g) then
+    match mtx g with
+    | None => Some (true, set_mtx g (Some t), [E K_TRYLOCK_FOR O_MTX 1])
+    | Some _ => if Nat.eqb c 2 then Some (false, g, [E K_TRYLOCK_FOR O_MTX 0]) else None
+    end
+  else Some (true, g, []).
+Definition lock_acq (t : nat) (g : glob) : option (glob * list ev) :=
+  if locked (cf g) then
+    match mtx g with None => Some (set_mtx g (Some t), [E K_LOCK O_MTX 0]) | Some _ => None end
+  else Some (g, []).
+Definition unlock (g : glob) : glob * list ev :=
+  if locked (cf g) then (set_mtx g None, [E K_UNLOCK O_MTX 0]) else (g, []).
+
+Definition dcount (d : Z) : nat := if d <? 100 then 1%nat else Z.to_nat (d / 50).
+Definition sleepy (d : Z) : bool := 4 <? d.
+
+Definition fid_dtor (o : nat) : Z := 2 * zn o.
+Definition fid_cb (o : nat) : Z := 2 * zn o + 1.
+
+(* what user code (destructor / callback) calls on the container it belongs to; only while the container
+   is alive (the harness switches re-entry off once ~DelayedDestructor has started) *)
+Definition reenter (g : glob) (m : nat) : glob * list instr :=
+  match cstate g, m with
+  | O, 1%nat => (g, [ISizeLock])
+  | O, 2%nat => let (g', o) := new_obj g 0 0 in (g', [IAddLock o])
+  | O, 3%nat => (g, [IDoTry])
+  | O, 4%nat => (g, [IDdTry 150])
+  | _, _ => (g, [])
+  end.
+
+(* after lock.unlock(): the callbacks, then ecall.clear(), then the second try_lock_for *)
+Definition cbs_cont (rest ec : list nat) (esz : nat) : list instr :=
+  match rest with
+  | [] => [IClear SRC_CLEAR ec; IRelock esz]
+  | o :: r => [ICb o r ec esz]
+  end.
+
+Definition invoke (g : glob) (o : op) : glob * list instr :=
+  let dead := negb (Nat.eqb (cstate g) 0) in
+  let fault := (g, [IFault 1; ISetRv 0; IEndOp true]) in
+  match o with
+  | Add s dm cm =>
+    if dead then fault else
+    let (g1, x) := new_obj g dm cm in
+    let keep := negb (Nat.eqb s 0) && match slot_get s (slots g) with None => true | Some _ => false end in
+    let g2 := if keep then set_slots (inc_rc g1 x) ((s, x) :: slots g1) else g1 in
+    (g2, [IAddLock x; ISetRv (zn x); IEndOp true])
+  | Drop s =>
+    match slot_get s (slots g) with
+    | Some x => (set_slots g (slot_del s (slots g)), [IClear SRC_DROP [x]; ISetRv 0; IEndOp false])
+    | None => (g, [ISetRv 0; IEndOp false])
+    end
+  | DestroyObjects => if dead then fault else (g, [IDoTry; IEndOp true])
+  | DestroyObjectsDelay d => if dead then fault else (g, [IDdTry d; IEndOp true])
+  | Size => if dead then fault else (g, [ISizeLock; IEndOp true])
+  | DestroyContainer => if dead then fault else (g, [IDcGate; IEndOp true])
+  | Readd s =>
+    if dead then fault else
+    match slot_get s (slots g) with
+    | Some x => (inc_rc g x, [IAddLock x; ISetRv 0; IEndOp true])
+    | None => (g, [ISetRv 0; IEndOp true])
+    end
+  end.
+
+Definition visible (g : glob) (i : instr) : bool :=
+  match i with
+  | IInvoke _ | ICb _ _ _ _ | IDtor _ _ | ISleep | IYield | IDcGate => true
+  | IUnlock | ISizeLock | IAddLock _ | IDoTry | IRelock _ | IDdTry _ | IDdTryA _ _ _ | IDdTryB _ _ _ => locked (cf g)
+  | _ => false
+  end.
+
+(* ---------- one instruction ---------- *)
+Definition exec (t c : nat) (g : glob) (r : Z) (i : instr) : option (glob * Z * list instr * list ev) :=
+  match i with
+  | IInvoke o => let (g', push) := invoke g o in Some (g', r, push, [E K_INVOKE 0 (opcode o)])
+  | IEndOp cnt => Some (if cnt then set_busy g (pred (busy g)) else g, r, [], [E K_RET 0 r])
+  | ISetRv v => Some (g, v, [], [])
+  | ISetRvSize => Some (g, vsize g, [], [])
+  | IFault code => Some (g, r, [], [E K_FAULT 0 code])
+  | IUnlock => let (g', es) := unlock g in Some (g', r, [], es)
+  (* size(): lock_guard; return size *)
+  | ISizeLock =>
+    match lock_acq t g with None => None | Some (g', es) => Some (g', vsize g, [IUnlock], es) end
+  (* addObjectsToBeDestroyed(obj): lock_guard; push_back(std::move(obj)) *)
+  | IAddLock o =>
+    match lock_acq t g with
+    | None => None
+    | Some (g', es) => Some (log_add (set_vec g' (vec g' ++ [o])) o, r, [IUnlock], es)
+    end
+  (* destroyObjects(): try_lock_for; size; scan; remove_if/erase; [unlock; callbacks; clear; relock] *)
+  | IDoTry =>
+    match try_acq t c g with
+    | None => None
+    | Some (false, g', es) => Some (g', -1, [], es)
+    | Some (true, g', es) =>
+      let (ec, r1) := scan (vec g') (rc g') in
+      match ec with
+      | [] => Some (g', vsize g', [IUnlock], es)
+      | _ :: _ =>
+        let (v2, r2) := sweep (vec g') ec r1 in
+        let g2 := log_reaped (set_rc (set_vec g' v2) r2) ec in
+        let esz := length v2 in
+        Some (g2, r, IUnlock :: (if hascb (cf g) then cbs_cont ec ec esz else [IClear SRC_CLEAR ec; IRelock esz]), es)
+      end
+    end
+  (* deleteFunc(element): the harness callback calls vs::user_call (may throw), then re-enters *)
+  | ICb o rest ec esz =>
+    let k := ncb g in
+    let g1 := log_cb (set_ncb g (S k)) o in
+    if memn k (throws (cf g)) then
+      (* unwinding destroys ecall; catch (...) {}; return elementSize; *)
+      Some (g1, r, [IClear SRC_UNWIND ec; ISetRv (zn esz)], [E K_CALL 0 (fid_cb o); E K_THROW 0 (zn k)])
+    else
+      let (g2, push) := reenter g1 (cmode g o) in
+      Some (g2, r, push ++ cbs_cont rest ec esz, [E K_CALL 0 (fid_cb o)])
+  | IClear src l =>
+    match l with
+    | [] => Some (g, r, [], [])
+    | o :: l' =>
+      let g' := dec_rc g o in
+      Some (g', r, (if Nat.eqb (rc g o) 1 then [IDtor src o] else []) ++ [IClear src l'], [])
+    end
+  | IDtor src o =>
+    let g1 := log_d g o in
+    let (g2, push) := if Nat.ltb src 2 then reenter g1 (dmode g o) else (g1, []) in
+    Some (g2, r, push, [E K_CALL 0 (fid_dtor o)])
+  | IRelock esz =>
+    match try_acq t c g with
+    | None => None
+    | Some (false, g', es) => Some (g', zn esz, [], es)
+    | Some (true, g', es) => Some (g', vsize g', [IUnlock], es)
+    end
+  (* destroyObjects(delay) *)
+  | IDdTry d =>
+    match try_acq t c g with
+    | None => None
+    | Some (false, g', es) => Some (g', -1, [], es)
+    | Some (true, g', es) => Some (g', r, [IDdLoop d 0 (length (vec g'))], es)
+    end
+  | IDdLoop d cnt esz =>   (* loop head, lock held *)
+    if Nat.ltb 0 esz && Nat.ltb cnt (dcount d) then
+      if Nat.ltb 0 cnt && sleepy d then Some (g, r, [IUnlock; ISleep; IDdTryA d cnt esz], [])
+      else Some (g, r, [IDdBody d cnt], [])
+    else Some (g, r, [ISetRvSize; IUnlock], [])
+  | IDdTryA d cnt esz =>
+    match try_acq t c g with
+    | None => None
+    | Some (false, g', es) => Some (g', zn esz, [], es)
+    | Some (true, g', es) => Some (g', r, [IDdBody d cnt], es)
+    end
+  | IDdBody d cnt =>       (* ++cnt; elementSize = size; if (elementSize > 0) { unlock; destroyObjects(); try_lock_for } *)
+    let esz := length (vec g) in
+    if Nat.ltb 0 esz then Some (g, r, [IUnlock; IDoTry; IDdTryB d (S cnt) esz], [])
+    else Some (g, r, [IDdLoop d (S cnt) 0], [])
+  | IDdTryB d cnt esz =>
+    match try_acq t c g with
+    | None => None
+    | Some (false, g', es) => Some (g', zn esz, [], es)
+    | Some (true, g', es) => Some (g', r, [IDdLoop d cnt esz], es)
+    end
+  | ISleep => Some (g, r, [], [E K_SLEEP 0 0])
+  | IYield => Some (g, r, [], [E K_YIELD 0 0])
+  (* ~DelayedDestructor: the harness gate waits until no other container operation is pending *)
+  | IDcGate =>
+    if Nat.eqb (busy g) 1 then Some (set_cstate g 1, r, [IDcLoop 0; ISetRv 0], [E K_DESTROY 0 0]) else None
+  | IDcLoop ii =>
+    match vec g with
+    | [] => Some (g, r, [IDcVec], [])
+    | _ :: _ => Some (g, r, [IDoTry; IDcAfter (S ii)], [])
+    end
+  | IDcAfter ii =>
+    match vec g with
+    | [] => Some (g, r, [IDcVec], [])
+    | _ :: _ =>
+      if Nat.ltb 4 ii then Some (g, r, [IDoTry; IDcVec], [])
+      else if Nat.even ii then Some (g, r, [ISleep; IDcLoop ii], [])
+      else Some (g, r, [IYield; IDcLoop ii], [])
+    end
+  | IDcVec => Some (set_cstate (set_vec g []) 2, r, [IClear SRC_VECTOR (vec g)], [])
+  end.
+
+(* ---------- a scheduling step: one visible instruction, then the invisible code that follows it ---------- *)
+Definition settle_fuel : nat := 400.
+Fixpoint settle (fuel t : nat) (g : glob) (r : Z) (st : list instr) (evs : list ev)
+  : glob * Z * list instr * list ev :=
+  match fuel with
+  | O => (g, r, st, evs)
+  | S f =>
+    match st with
+    | [] => (g, r, st, evs)
+    | i :: st' =>
+      if visible g i then (g, r, st, evs) else
+      match exec t 0 g r i with
+      | None => (g, r, st, evs)
+      | Some (g', r', push, es) => settle f t g' r' (push ++ st') (evs ++ es)
+      end
+    end
+  end.
+
+Definition tstep (t c : nat) (g : glob) (l : loc) : option (glob * loc * list ev) :=
+  let fire (p : list op) (i : instr) (st : list instr) :=
+    if visible g i then
+      match exec t c g (rv l) i with
+      | None => None
+      | Some (g', r', push, es) =>
+        let '(g2, r2, st2, es2) := settle settle_fuel t g' r' (push ++ st) es in Some (g2, Loc p st2 r2, es2)
+      end
+    else
+      (* only after the invisible-code budget ran out (never observed): continue silently *)
+      let '(g2, r2, st2, es2) := settle settle_fuel t g (rv l) (i :: st) [] in Some (g2, Loc p st2 r2, es2) in
+  match stk l with
+  | i :: st => fire (prog l) i st
+  | [] => match prog l with [] => None | o :: p => fire p (IInvoke o) [] end
+  end.
+
+Definition fin (l : loc) : bool := match stk l, prog l with [], [] => true | _, _ => false end.
+
+Definition init (c : config) (progs : list (list op)) : sys glob loc :=
+  Sys (Glob c None [] 0 [] (fun _ => 0%nat) 0 0
+            (list_sum (map (fun p => length (filter counted p)) progs))
+            (fun _ => 0%nat) (fun _ => 0%nat) (Ghost [] [] [] []))
+      (map (fun p => Loc p [] 0) progs).
+
+(* ---------- entry point of the correspondence check ---------- *)
+Fixpoint decode_prog (p : list (list Z)) : list op :=
+  match p with
+  | [] => []
+  | z :: r => match decode_op z with Some o => o :: decode_prog r | None => decode_prog r end
+  end.
+Definition decode_cfg (cfg : list Z) : config :=
+  match cfg with
+  | lk :: cb :: n :: r => Config (negb (lk =? 0)) (negb (cb =? 0)) (map Z.to_nat (firstn (Z.to_nat n) r))
+  | _ => Config true false []
+  end.
+
+Definition final (s : sys glob loc) : list line :=
+  let g := gl s in
+  [-2; zn (nobj g); (if Nat.eqb (cstate g) 0 then vsize g else 0); zn (Nat.min (cstate g) 1); zn (ncb g)] ::
+  map (fun o => [-2; zn o; zn (rc g o); zn (count_occ Nat.eq_dec (dlog (gh g)) o); zn (count_occ Nat.eq_dec (cblog (gh g)) o)])
+      (seq 1 (nobj g)).
+
+Definition run_case (cfg : list Z) (progs : list (list (list Z))) (sched : list (Z * Z)) : list line :=
+  run_case_gen glob loc tstep fin (init (decode_cfg cfg) (map decode_prog progs)) sched final.
